@@ -23,6 +23,19 @@ Theorem tls_client_authenticates_server : forall cert anchors host chain_ok vali
 Proof. exact t_client_auth. Qed.
 Print Assumptions tls_client_authenticates_server.
 
+(* 2'. ... in particular an HttpClient session for an https URL whose host is a name (HttpClient connects to the
+      resolved address; since the repair of C07-F11b2 it passes the URL's host along as the TLS server name) is
+      established only with a certificate issued for that name. *)
+Theorem tls_http_client_checks_host_name : forall cert anchors host chain_ok valid_now name_ok t a h srv lo hi v,
+  t_verify_peer t = true ->
+  client_session_ok cert anchors host chain_ok valid_now name_ok t (http_client_name_known true) a h srv lo hi = Some v ->
+  chain_ok srv a = true /\ valid_now srv = true /\ name_ok srv h = true.
+Proof.
+  intros cert anchors host chain_ok valid_now name_ok t a h srv lo hi v Hv H.
+  destruct (t_client_auth _ _ _ _ _ _ _ _ _ _ _ _ _ _ Hv H) as (H1 & H2 & H3). auto.
+Qed.
+Print Assumptions tls_http_client_checks_host_name.
+
 (* 3. A server that verifies its peers admits only clients that present a valid certificate. *)
 Theorem tls_server_requires_client_certificate : forall cert anchors chain_ok valid_now t a cli lo hi v,
   t_verify_peer t = true ->
@@ -40,8 +53,9 @@ Proof. exact t_no_plain_listener. Qed.
 Print Assumptions tls_never_plaintext_listener.
 
 (* 5. The code as found, refuted: the server context verified peers without FAIL_IF_NO_PEER_CERT, so a client
-      with no certificate was admitted; the client never set the expected host name; a TLS request without a
-      context fell back to plaintext. *)
+      with no certificate was admitted; the client never set the expected host name (and HttpClient, which connects
+      to a resolved address, still had none to set until C07-F11b2 was repaired); a TLS request without a context fell
+      back to plaintext. *)
 Definition server_ctx_as_found (t : tlscfg) : ctx := mkCtx (t_verify_peer t) false (floor (t_min_version t)).
 Theorem tls_as_found_admits_certless_client :
   ossl_server_accepts bool unit (fun _ _ => true) (fun _ => true)
